@@ -38,13 +38,13 @@ func toBig[T integer](v T, sg bool) M {
 
 // run builder: the graph of f over [min,max] as maximal runs; lossless.
 type runB[T integer] struct {
-	from, to   T
-	cOK, idOK  bool
-	negOK      bool
-	c          T
-	open       bool
-	sg         bool
-	runs       []M
+	from, to  T
+	cOK, idOK bool
+	negOK     bool
+	c         T
+	open      bool
+	sg        bool
+	runs      []M
 }
 
 func (b *runB[T]) close() {
